@@ -420,6 +420,13 @@ def make_histories(rng, rows, weighting, cw):
 
 
 def drv_fit(ctx, rows, weighting, cw):
+    rep = _drv_fit(ctx, rows, weighting, cw)
+    if not rep["mech_pts_are_spec_pts"]:
+        raise core.InternalError("driver: the mechanism's points and weights differ from the specified ones (contradicts fitPts_eq_specPts / NanInsert.usable_eq)")
+    return rep
+
+
+def _drv_fit(ctx, rows, weighting, cw):
     return ctx.driver.call(
         "c06.fit", weighting=weighting, custom=cw is not None,
         rows=[[orat(nan(x)), orat(nan(y)), None if cw is None else orat(nan(cw[i]))] for i, (x, y) in enumerate(rows)])
